@@ -1,6 +1,7 @@
 import SeqVerif.Model.ProxyFracInv
 import SeqVerif.Model.ActiveConcQuiet
 import SeqVerif.Model.C07Cfg
+import SeqVerif.Model.FetchArrange
 /-!
 # C07 - concurrent ingest, search, fetch, sealing and rotation never corrupt readers
 
@@ -351,6 +352,26 @@ example : ∀ c, ∃ s, run c init
 
 end ActiveConc
 
+/-! ## fetch over several fractions: the arrange step of `Fetcher.FetchDocs` -/
+section FetchArrange
+open SV.FetchArrange
+
+/-- **fetch_arrange.**  An id without a hint is asked from every fraction whose [From, To] contains its MID (fractions
+written by several writers around a rotation overlap); at most one of them holds the document, the others answer nil.
+Whatever the number of fractions asked and whatever the order they are asked in, the result slot holds the document
+iff some asked fraction returned it. -/
+theorem c07_fetch_arrange_order_independent {α} (answers : List (Option α)) (d : α)
+    (h : ∀ x, x ∈ answers → x = none ∨ x = some d) :
+    (some d ∈ answers → arrange answers = some d) ∧ (some d ∉ answers → arrange answers = none) :=
+  foldl_keep answers none d h
+
+/-- without the `!= nil` guard a fraction asked later that does not hold the document wipes the slot -/
+theorem c07_fetch_arrange_unguarded_witness :
+    arrangeUnguarded [some 7, none] = none ∧ arrange [some 7, none] = some 7 ∧ arrange [none, some 7, none] = some 7 := by
+  decide
+
+end FetchArrange
+
 /-! ## Obligations on facts re-extracted from /repo on every run -/
 section Extracted
 open SV.Extracted.C07
@@ -377,6 +398,10 @@ theorem c07_x_token_provider_order : tokenProviderOrder = ["GetTIDsByField", "ti
 /-- the reader's `inverseLIDs` is the model's filter "LID is in the mapping" only because a slot of the inverser array
 that `newInverser` did not write reads 0: the array is carved from a recycled pool buffer and must be zeroed first -/
 theorem c07_x_inverser_zeroed : inverserSliceOrder = ["bytespool.AcquireLen", "unsafe.Slice", "clear"] := by decide
+
+/-- the arrange loop of `Fetcher.FetchDocs` writes a fraction's answer into the result slot only when it is not nil
+(the guard `SV.FetchArrange.arrange` models) -/
+theorem c07_x_fetch_arrange_guard : fetchArrangeGuards = ["docsByFracs[i][j] != nil"] := by decide
 
 /-- ownership at the enqueue boundary: `Active.Append` only QUEUES the metas for the index worker (`wNew` happens after
 `Bulk` returned), so the in-memory client, whose caller reuses its buffer, must hand over a private copy -/
